@@ -125,6 +125,10 @@ def load_codes():
             stab = [[classify_gate(g, idx) for g, idx in c.gate_index_list] for c in code['stabilizer']]
             res[lname] = dict(fname=fname, lname=lname, name=str(code['name']), n=int(code['num_qubit']), K=int(code['num_logical_dim']),
                               d=int(code['distance']), encode=enc, stab=stab, listed=listed.get(fname), live=code)
+            try:
+                res[lname]['second'] = fingerprint(getattr(numqi.qec, fname)())
+            except Exception:
+                res[lname]['second'] = None
         except Exception as e:  # a constructor that raises: no data, the Lean obligations fail to build
             res[lname] = dict(fname=fname, lname=lname, error=f'{type(e).__name__}: {e}')
     return res
@@ -983,6 +987,154 @@ def probe_asym_float(ctx):
                     ctx.probe_ok(('asymf', n, d, w))
 
 
+def fingerprint(code):
+    """(n, K, d, classified encoder gates, classified stabilizer-circuit gates) of a generate_code*() result"""
+    enc = code.get('encode')
+    stab = code.get('stabilizer')
+    return dict(n=code.get('num_qubit'), K=code.get('num_logical_dim'), d=code.get('distance'),
+                encode=None if enc is None else [classify_gate(g, idx) for g, idx in enc.gate_index_list],
+                stab=None if stab is None else [[classify_gate(g, idx) for g, idx in c_.gate_index_list] for c_ in stab])
+
+
+def fresh_code_failures(c, fresh, check_kl, full=False):
+    """everything the first instantiation satisfied, evaluated on a freshly generated object (no model): returns a list of strings"""
+    import numqi
+    out = []
+    n, K, d = c['n'], c['K'], c['d']
+    want = dict(n=n, K=K, d=d, encode=c['encode'], stab=c['stab'])
+    got = fingerprint(fresh)
+    for k in ('n', 'K', 'd'):
+        if got[k] != want[k]:
+            out.append(f'{k} = {got[k]} (first instantiation: {want[k]})')
+    if got['encode'] != want['encode']:
+        enc = fresh.get('encode')
+        out.append(f'encoder gate list differs from the first instantiation (num_qubit {getattr(enc, "num_qubit", None)}, {0 if got["encode"] is None else len(got["encode"])} gates; first: {n} qubits, {len(want["encode"])} gates)')
+    if got['stab'] != want['stab']:
+        j = next((i for i, (a, b) in enumerate(zip(got['stab'] or [], want['stab'])) if a != b), None)
+        out.append(f'stabilizer circuits differ from the first instantiation (count {0 if got["stab"] is None else len(got["stab"])} vs {len(want["stab"])}, first difference at index {j}: {None if j is None else got["stab"][j]})')
+    if not out and not full:
+        # identical data to the first instantiation, on which every property has just been evaluated
+        return out
+    try:
+        code = numqi.qec.generate_code_np(fresh['encode'], K)
+        if code.shape != (K, 2 ** n):
+            out.append(f'generate_code_np shape {code.shape}, expected {(K, 2 ** n)}')
+        else:
+            G = code.conj() @ code.T
+            if np.abs(G - np.eye(K)).max() > 1e-9:
+                out.append('code words not orthonormal')
+            if check_kl:
+                for s in all_errors(n, d):
+                    M = code.conj() @ pauli_apply(s, code).T
+                    if np.abs(M - M[0, 0] * np.eye(K)).max() > 1e-9:
+                        out.append(f'Knill-Laflamme fails for error {s}'); break
+            for j, (s, circ) in enumerate(zip(c['listed'] or [], fresh['stabilizer'])):
+                if np.abs(pauli_apply(s, code) - code).max() > 1e-9:
+                    out.append(f'listed stabilizer {s} does not fix the code words'); break
+                img = np.stack([circ.apply_state(q0.copy()) for q0 in code])
+                if img.shape != code.shape or np.abs(img - code).max() > 1e-9:
+                    out.append(f'stabilizer circuit {j} ({s}) does not fix the code words'); break
+                if n <= 8 and np.abs(circuit_unitary(circ, max(n, circ.num_qubit)) - (pauli_matrix(s) if circ.num_qubit <= n else 0)).max() > 1e-9:
+                    out.append(f'stabilizer circuit {j} does not implement its listed string {s}'); break
+    except Exception as e:
+        out.append(f'evaluating the fresh object raised {type(e).__name__}: {e}')
+    return out
+
+
+def probe_history(ctx):
+    """generators must return objects that do not depend on what was done with earlier results: use / mutate an earlier
+    result through every public in-place API, then instantiate again and require the fresh object to equal the first
+    translation and to satisfy the property.  Runs last (it may corrupt shared objects when the generators are not pure)."""
+    import numqi
+    codes = get_codes()
+    rng = ctx.rng
+
+    def history_steps(c):
+        K = c['K']
+        kk = max(1, (K - 1).bit_length())
+        return [
+            ('result["encode"].shift_qubit_index_(2)', lambda r: r['encode'].shift_qubit_index_(2)),
+            ('result["stabilizer"][0].shift_qubit_index_(1)', lambda r: r['stabilizer'][0].shift_qubit_index_(1)),
+            (f'numqi.qec.VarQEC(result["encode"], {K}, numqi.qec.make_error_list({c["n"]}, 2))',
+             lambda r: numqi.qec.VarQEC(r['encode'], K, numqi.qec.make_error_list(c['n'], 2))),
+            ('result["encode"].X(0)', lambda r: r['encode'].X(0)),
+            ('result["encode"].append_gate(result["encode"].gate_index_list[0][0], (1,))', lambda r: r['encode'].append_gate(r['encode'].gate_index_list[0][0], (1,))),
+            ('result["stabilizer"][-1].extend_circuit(result["stabilizer"][0])', lambda r: r['stabilizer'][-1].extend_circuit(r['stabilizer'][0])),
+            ('result["stabilizer"].pop()', lambda r: r['stabilizer'].pop()),
+            ('result["stabilizer"].append(result["encode"])', lambda r: r['stabilizer'].append(r['encode'])),
+            ('result["encode"].gate_index_list.pop()', lambda r: r['encode'].gate_index_list.pop()),
+            ('result["distance"] = 99; result["num_qubit"] = 1; del result["encode"]', lambda r: (r.__setitem__('distance', 99), r.__setitem__('num_qubit', 1), r.pop('encode'))),
+            ('result["encode"].shift_qubit_index_(-1)', lambda r: r['encode'].shift_qubit_index_(-1)),
+        ]
+
+    for _, lname in CODES:
+        c = codes.get(lname)
+        if c is None or 'error' in c:
+            continue
+        gen = getattr(numqi.qec, c['fname'])
+        steps = history_steps(c)
+        # (a) each in-place API alone, (b) a seeded random sequence of three of them, (c) VarQEC used as the library intends
+        plans = [[i] for i in range(len(steps))] + [rng.sample(range(len(steps)), 3)]
+        bad = None
+        for plan in plans:
+            hist = [f'r = numqi.qec.{c["fname"]}()']
+            try:
+                r = gen()
+                for i in plan:
+                    hist.append(steps[i][0].replace('result', 'r'))
+                    try:
+                        steps[i][1](r)
+                    except Exception as e:
+                        hist[-1] += f'   # raised {type(e).__name__} (ignored)'
+                hist.append(f'fresh = numqi.qec.{c["fname"]}()')
+                fresh = gen()
+                fails = fresh_code_failures(c, fresh, check_kl=(c['n'] <= 8), full=(plan == plans[-1] and c['n'] <= 6))
+            except Exception as e:
+                fails = [f'history raised {type(e).__name__}: {e}']
+            if fails:
+                bad = (hist, fails); break
+            ctx.probe_ok((lname, 'history', tuple(plan)))
+        if bad:
+            hist, fails = bad
+            ctx.fail(f'{lname}:history', f'{c["name"]}: after the history {hist} the freshly generated code is wrong: {fails[0]}',
+                     dict(code=c['name'], op='history', history=hist, observed=fails))
+    # library use as intended: VarQEC on a shipped encoder evaluates to loss 0 and reproduces the code words (small codes)
+    for _, lname in CODES:
+        c = codes.get(lname)
+        if c is None or 'error' in c or c['n'] > 6:
+            continue
+        try:
+            r = getattr(numqi.qec, c['fname'])()
+            want = numqi.qec.generate_code_np(r['encode'], c['K'])
+            model = numqi.qec.VarQEC(r['encode'], c['K'], numqi.qec.make_error_list(c['n'], c['d']))
+            loss = float(model())
+            got = model.get_code()
+            if abs(loss) > 1e-12 or got.shape != want.shape or np.abs(got - want).max() > 1e-9:
+                ctx.fail(f'{lname}:varqec', f'{c["name"]}: VarQEC on the shipped encoder: loss {loss}, code words differ from generate_code_np by {np.abs(got - want).max() if got.shape == want.shape else "shape"}',
+                         dict(code=c['name'], op='VarQEC', loss=loss))
+            else:
+                ctx.probe_ok((lname, 'varqec'))
+        except Exception as e:
+            ctx.fail(f'{lname}:varqec', f'{c["name"]}: VarQEC on the shipped encoder raised {type(e).__name__}: {e}', dict(code=c['name'], op='VarQEC'))
+    # two generators interleaved
+    names = [l for _, l in CODES if codes.get(l) and 'error' not in codes[l]]
+    for a, b in zip(names, names[1:] + names[:1]):
+        ca, cb = codes[a], codes[b]
+        hist = [f'ra = numqi.qec.{ca["fname"]}()', f'rb = numqi.qec.{cb["fname"]}()', 'ra["encode"].shift_qubit_index_(1)', 'rb["stabilizer"][0].shift_qubit_index_(2)',
+                f'fa = numqi.qec.{ca["fname"]}()', f'fb = numqi.qec.{cb["fname"]}()']
+        try:
+            ra = getattr(numqi.qec, ca['fname'])(); rb = getattr(numqi.qec, cb['fname'])()
+            ra['encode'].shift_qubit_index_(1); rb['stabilizer'][0].shift_qubit_index_(2)
+            fa = getattr(numqi.qec, ca['fname'])(); fb = getattr(numqi.qec, cb['fname'])()
+            fails = [f'{ca["name"]}: ' + x for x in fresh_code_failures(ca, fa, False)] + [f'{cb["name"]}: ' + x for x in fresh_code_failures(cb, fb, False)]
+        except Exception as e:
+            fails = [f'history raised {type(e).__name__}: {e}']
+        if fails:
+            ctx.fail(f'{a}:history', f'after the interleaved history {hist}: {fails[0]}', dict(op='history', history=hist, observed=fails))
+        else:
+            ctx.probe_ok((a, b, 'interleaved'))
+
+
 def probe_weight_enumerator(ctx, c):
     import numqi
     name, n, K, d = c['name'], c['n'], c['K'], c['d']
@@ -1018,6 +1170,16 @@ def probe(ctx):
             probe_weight_enumerator(ctx, c)
     probe_error_sets(ctx, 6 if quick else 7, 4 if quick else 5)
     probe_asym_float(ctx)
+    # second instantiation must translate to the same data as the first
+    for _, lname in CODES:
+        c = codes.get(lname)
+        if c is not None and 'error' not in c and c.get('second') is not None:
+            if c['second'] != dict(n=c['n'], K=c['K'], d=c['d'], encode=c['encode'], stab=c['stab']):
+                ctx.fail(f'{lname}:history', f'{c["name"]}: a second call of {c["fname"]}() does not give the same circuits as the first',
+                         dict(code=c['name'], op='history', history=[f'numqi.qec.{c["fname"]}()', f'numqi.qec.{c["fname"]}()']))
+            else:
+                ctx.probe_ok((lname, 'second-instantiation'))
+    probe_history(ctx)
 
 
 def search(ctx, hints):
